@@ -339,7 +339,20 @@ func visibleRunes(rs []rune) []rune {
 
 func c20Run(f []string) string {
 	switch f[0] {
-	case "term", "termx", "termh":
+	case "vt":
+		width, _ := strconv.Atoi(f[1])
+		height, _ := strconv.Atoi(f[2])
+		row0, _ := strconv.Atoi(f[3])
+		t := newVT(width, height, f[4] == "1")
+		t.row = row0
+		t.feed(UnHex(f[5]))
+		return fmt.Sprintf("ok rows=%s row=%d col=%d vis=%s", t.rowsOut(height), t.row, t.col, b01(t.vis))
+	case "size":
+		rows, _ := strconv.Atoi(f[1])
+		cols, _ := strconv.Atoi(f[2])
+		multiterm.VerifSetTermSize(rows, cols)
+		return fmt.Sprintf("ok %d %d", multiterm.TermRows(), multiterm.TermCols())
+	case "term", "termx", "termh", "termf":
 		width, _ := strconv.Atoi(f[1])
 		trim := f[2] == "1"
 		clear, hide := true, true
@@ -364,6 +377,8 @@ func c20Run(f []string) string {
 			for _, it := range h {
 				if it.close {
 					tw.Close()
+				} else if f[0] == "termf" {
+					tw.WriteForLinef(it.line, "%s", it.text)
 				} else {
 					tw.WriteForLine(it.line, it.text)
 				}
@@ -397,7 +412,7 @@ func c20Run(f []string) string {
 			cells += c20Width(r)
 		}
 		return fmt.Sprintf("ok %s v=%d e=%s c=%d", Hex(buf.Bytes()), len(visibleRunes(rs)), b01(inEsc), cells)
-	case "vterm":
+	case "vterm", "vtermf":
 		h := c20ParseHist(f[1])
 		v := multiterm.NewVirtualTerm()
 		vpanic := false
@@ -407,7 +422,7 @@ func c20Run(f []string) string {
 					vpanic = true
 				}
 			}()
-			c20VtermRun(v, h)
+			c20VtermRun(v, h, f[0] == "vtermf")
 		}()
 		if vpanic {
 			return "panic" // predicted by the model: write after Close, or negative line index
@@ -453,14 +468,46 @@ func c20Run(f []string) string {
 	return "bad-op"
 }
 
-func c20VtermRun(v *multiterm.VirtualTerm, h []c20Item) {
+func c20VtermRun(v *multiterm.VirtualTerm, h []c20Item, viaF bool) {
 	for _, it := range h {
 		if it.close {
 			v.Close()
+		} else if viaF {
+			v.WriteForLinef(it.line, "%s", it.text)
 		} else {
 			v.WriteForLine(it.line, it.text)
 		}
 	}
+}
+
+// c20Stream builds an arbitrary terminal byte stream for the `vt` op: printable runes of every width class,
+// C0 controls, complete / garbled / aborted / restarted escape sequences, invalid UTF-8.
+func c20Stream(r *Rand, n int) string {
+	var sb strings.Builder
+	csi := []string{"\x1b[A", "\x1b[1A", "\x1b[2A", "\x1b[0A", "\x1b[10A", "\x1b[K", "\x1b[0K", "\x1b[1K", "\x1b[2K", "\x1b[?25l", "\x1b[?25h",
+		"\x1b[?7l", "\x1b[25l", "\x1b[31m", "\x1b[0m", "\x1b[1;32m", "\x1b[m", "\x1b[3", "\x1b[", "\x1b", "\x1b[1;1H", "\x1b[2J", "\x1b[1B", "\x1b[;A", "\x1b[1;2A", "\x1b[ A"}
+	c0 := []string{"\n", "\n", "\r", "\r", "\b", "\t", "\x0b", "\x0c", "\x18", "\x1a", "\x07", "\x00", "\x7f"}
+	for i := 0; i < n; i++ {
+		switch k := r.Intn(20); {
+		case k < 9:
+			sb.WriteByte(byte('a' + r.Intn(26)))
+		case k < 10:
+			sb.WriteByte(' ')
+		case k < 12:
+			sb.WriteString(Pick(r, c20Multi))
+		case k < 13:
+			sb.WriteString(Pick(r, c20Wide))
+		case k < 15:
+			sb.WriteString(Pick(r, c0))
+		case k < 18:
+			sb.WriteString(Pick(r, csi))
+		case k < 19:
+			sb.WriteString(Pick(r, c20Bad))
+		default:
+			sb.WriteString(Pick(r, []string{"\xff", "\xc3", "\xe4\xb8", "\xf0\x9f\x98", "\xed\xa0\x80", "\xc0\xaf"}))
+		}
+	}
+	return sb.String()
 }
 
 // ---------------------------------------------------------------- generators
@@ -608,7 +655,21 @@ func c20Gen(r *Rand, tier string) []string {
 		if trim {
 			tb = 1
 		}
-		switch k := r.Intn(24); {
+		switch k := r.Intn(28); {
+		case k >= 27:
+			if r.Chance(1, 8) {
+				out = append(out, fmt.Sprintf("size %d %d", r.Range(-1, 300), r.Range(-1, 400)))
+			} else if r.Chance(1, 2) {
+				out = append(out, fmt.Sprintf("termf %d %d %s", width, tb, c20Hist(r, width, trim, bad, false)))
+			} else {
+				out = append(out, fmt.Sprintf("vtermf %s", c20Hist(r, width, true, bad, true)))
+			}
+		case k >= 24:
+			if width < 0 {
+				width = 0
+			}
+			height := Pick(r, []int{1, 2, 3, 4, 5, 8})
+			out = append(out, fmt.Sprintf("vt %d %d %d %d %s", width, height, r.Intn(height), r.Intn(2), HexS(c20Stream(r, r.Intn(40)))))
 		case k >= 20:
 			height := Pick(r, []int{1, 2, 3, 4, 5, 8})
 			row0 := r.Intn(height)
@@ -685,7 +746,23 @@ func c20Stats(cases []string) map[string]int {
 		st["op."+f[0]]++
 		hs := ""
 		switch f[0] {
-		case "term", "bterm":
+		case "vt":
+			b := UnHex(f[5])
+			if bytes.Contains(b, []byte("\x1b[")) {
+				st["vt.withCsi"]++
+			}
+			if bytes.Contains(b, []byte("\n")) {
+				st["vt.withLf"]++
+			}
+			if !utf8.Valid(b) {
+				st["vt.invalidUtf8"]++
+			}
+			continue
+		case "size":
+			continue
+		case "vtermf":
+			hs = f[1]
+		case "term", "bterm", "termf":
 			hs = f[3]
 			st[f[0]+".trim"+f[2]]++
 		case "termh":
